@@ -384,15 +384,27 @@ func run(r *core.Run) {
 	r.Bound("container_width", maxWidth)
 	kinds := []string{"vec", "list", "map", "mix"}
 	x.runFamily(family{name: "deep", n: int64(maxDepth * len(kinds)), hashNT: true, gen: func(i int64) *genSpec {
-		return &genSpec{"nest", kinds[i%int64(len(kinds))], int(i/int64(len(kinds))) + 1}
+		return &genSpec{Shape: "nest", Kind: kinds[i%int64(len(kinds))], N: int(i/int64(len(kinds))) + 1}
+	}})
+	// the same scalar twice below / beside a deep nest (the encoder changes its cycle bookkeeping at depth 64)
+	coreDepths := []int{1, 2, 61, 62, 63, 64, 65, 66, maxDepth}
+	ncores := len(repeatCores())
+	r.Bound("repeated_leaf_cores", ncores)
+	r.Bound("repeated_leaf_depths", coreDepths)
+	x.runFamily(family{name: "deep-repeated-leaves", n: int64(len(coreDepths) * len(kinds) * ncores * 2), hashNT: true, gen: func(i int64) *genSpec {
+		shape := []string{"nest-core", "beside-deep"}[i%2]
+		i /= 2
+		core := int(i % int64(ncores))
+		i /= int64(ncores)
+		return &genSpec{Shape: shape, Kind: kinds[i%int64(len(kinds))], N: coreDepths[i/int64(len(kinds))], Core: core}
 	}})
 	x.runFamily(family{name: "wide", n: int64((maxWidth + 1) * 3), hashNT: true, gen: func(i int64) *genSpec {
-		return &genSpec{"wide", kinds[i%3], int(i / 3)}
+		return &genSpec{Shape: "wide", Kind: kinds[i%3], N: int(i / 3)}
 	}})
 	// the decoder's nesting limit: dump has none, encoding/json's decoder stops at 10000
 	limitDepths := []int{nestLimit - 1, nestLimit, nestLimit + 1, nestLimit + 2}
 	x.runFamily(family{name: "nesting-limit", n: int64(len(limitDepths) * 2), hashNT: true, gen: func(i int64) *genSpec {
-		return &genSpec{"nest", []string{"vec", "map"}[i%2], limitDepths[i/2]}
+		return &genSpec{Shape: "nest", Kind: []string{"vec", "map"}[i%2], N: limitDepths[i/2]}
 	}})
 
 	// ----- D: documents
